@@ -400,7 +400,7 @@ pub fn main(args: &[String]) {
     let mut tr = Trace::create(arg(args, "--out").expect("--out"));
     let child_args: Vec<String> = vec!["stack".into(), "--sizes".into(), sizes.iter().map(|x| x.to_string()).collect::<Vec<_>>().join(",")];
     let sz = sizes.clone();
-    run_isolated(&child_args, total, 1, 6_000_000, 120, &mut tr, &move |idx| {
+    run_isolated(&child_args, total, 1, 24_000_000, 120, &mut tr, &move |idx| {
         let (op, n) = describe_idx(idx, &sz);
         json!({"op":op,"profile":profile,"n":n})
     });
